@@ -269,7 +269,7 @@ func (n *Node) open() error {
 		o := *n.Cfg.PebbleOpts
 		opts = &o
 	}
-	d, err := db.NewDBWithFS("blockchain.db", n.FS, opts)
+	d, err := db.NewDBWithFS("", n.FS, opts)
 	if err != nil {
 		return err
 	}
@@ -461,4 +461,22 @@ func Diff(a, b []KV, ignore func(key []byte, before, after []byte, hasBefore, ha
 		}
 	}
 	return out
+}
+
+// AlignABI resynchronises the scripted application with the engine's chain.
+func (n *Node) AlignABI() error {
+	tip := n.Tip()
+	if tip == nil {
+		return fmt.Errorf("no tip")
+	}
+	roots := make([][]byte, tip.Header.Height+1)
+	for h := uint32(0); h <= tip.Header.Height; h++ {
+		hdr, err := n.Chain.DataAccess().GetBlockHeaderByHeight(h)
+		if err != nil {
+			return fmt.Errorf("height %d: %w", h, err)
+		}
+		roots[h] = hdr.StateRoot
+	}
+	n.ABI.AlignTo(roots)
+	return nil
 }
